@@ -44,6 +44,9 @@ func main() {
 		checks.Replay(rep)
 		return
 	}
+	if os.Args[1] == "C08worker" {
+		checks.StartWatchdog("", "")
+	}
 	if os.Args[1] == "C11worker" {
 		os.Exit(checks.C11Worker(os.Args[2:]))
 	}
@@ -55,5 +58,6 @@ func main() {
 		fmt.Fprintln(os.Stderr, "unknown check", os.Args[1])
 		os.Exit(2)
 	}
+	checks.StartWatchdog(os.Args[1], os.Args[2])
 	os.Exit(f(os.Args[2]))
 }
